@@ -1,0 +1,39 @@
+//! Plain-data snapshots of the worker resource allocator (feature `verif`).
+
+#[derive(Debug, Clone, Copy, PartialEq, Eq)]
+pub enum PoolKind {
+    Empty,
+    Indices,
+    Groups,
+    Sum,
+}
+
+#[derive(Debug, Clone, PartialEq, Eq)]
+pub struct PoolGroupSnapshot {
+    /// Completely free indices of the group
+    pub free_indices: Vec<u32>,
+    /// (index, free fractions) of partially used indices
+    pub fractions: Vec<(u32, u32)>,
+}
+
+#[derive(Debug, Clone, PartialEq, Eq)]
+pub struct PoolSnapshot {
+    pub kind: PoolKind,
+    /// Size of the whole resource in fractions
+    pub full_size: u64,
+    pub groups: Vec<PoolGroupSnapshot>,
+    /// Free amount (fractions) of a sum resource
+    pub sum_free: Option<u64>,
+}
+
+#[derive(Debug, Clone, PartialEq, Eq)]
+pub struct ConciseSnapshot {
+    /// per group: (free whole units, [(index, free fractions)])
+    pub groups: Vec<(u32, Vec<(u32, u32)>)>,
+}
+
+#[derive(Debug, Clone, PartialEq, Eq)]
+pub struct AllocatorSnapshot {
+    pub pools: Vec<PoolSnapshot>,
+    pub concise: Vec<ConciseSnapshot>,
+}
